@@ -199,6 +199,13 @@ fn ev_str(e: &Ev) -> String {
             unit.as_ref().map(|u| format!("u{}", hex(u.as_bytes()))).unwrap_or("-".into()),
             hex(desc.as_bytes())
         ),
+        Ev::RecvMetric { name, labels, op, value } => format!(
+            "K:{}:{}:{}:{}",
+            hex(name.as_bytes()),
+            labels.iter().map(|(k, v)| format!("{}={}", hex(k.as_bytes()), hex(v.as_bytes()))).collect::<Vec<_>>().join(","),
+            op,
+            value
+        ),
         Ev::Batch { frames } => format!("B:{}", frames.iter().map(|f| hex(f)).collect::<Vec<_>>().join(",")),
         Ev::Fanout { token } => format!("F:{}", token),
         Ev::Enqueue { token, dropped } => format!("Q:{}:{}", token, dropped),
